@@ -50,7 +50,7 @@ class C15(InvProp):
         N = 250 if tier == "quick" else 6000
         for i in range(N):
             r = Rng(seed, "C15", i)
-            segs = ["d1", "d2", "e", "x-y", "q"]
+            segs = ["d1", "d2", "e", "x-y", "q", "r-1.2", "v.2", ".h"]
             loc = r.choice([None, [], [r.choice(segs)], [r.choice(segs), r.choice(segs)], [r.choice(segs) for _ in range(r.range(3, 5))]])
             yield {"op": "abs", "loc": loc, "cls": "." * r.range(0, 7) + r.choice(["c", "c.d", "c.d.e", "", "_x", "a-b"])}
             c = GI.gen_inventory(r, n_classes=r.range(2, 6), shape=r.choice(["tree", "dag", "chain"]), nested=True,
@@ -65,6 +65,14 @@ class C15(InvProp):
             r2 = Rng(seed, "C15", i)
             r2.choice([0]); r2.choice([0])  # keep streams simple: twin built by rewriting below
             yield make_twin(c)
+            if i % 4 == 1:
+                # class directories whose names contain dots: climbing with `..` must go up one DIRECTORY
+                r4 = Rng(seed, "C15:dotted", i)
+                cd = GI.gen_inventory(r4, n_classes=r4.range(2, 6), shape=r4.choice(["tree", "dag", "chain"]), nested="dotted",
+                                      relative=r4.choice([70, 100]), n_nodes=r4.range(1, 2))
+                cd["fam"] = "dotted_dirs"
+                yield cd
+                yield make_twin(cd)
             if i % 3 == 0:
                 # the same class file under two names in different directories (symlink): its relative includes
                 # resolve against the directory of the name it was included by
